@@ -155,7 +155,11 @@ pub(super) fn animate<T: Component>(
         // from the `timeline` struct anymore after the `update`.
         let timeline_delay = timeline.delay();
         let timeline_duration = timeline.duration();
-        if animator.state == AnimationState::Playing {
+        // A long frame can take the animator from `None`/`Waiting` straight to `Ended`; the target
+        // must still land on the timeline's final values in that case.
+        let ends_now =
+            position_secs >= timeline_duration && animator.state != AnimationState::Ended;
+        if animator.state == AnimationState::Playing || ends_now {
             if let Ok(mut target) = targets.get_mut(entity) {
                 timeline.update(&mut target, position_secs);
             }
